@@ -1112,7 +1112,7 @@ SKEL_TAGS = {"PortableHash": "portable", "SseHash": "sse", "AvxHash": "avx", "Ne
 
 
 @advisory
-def skeleton_translation(res, tier, seed, workdir, stats, pid="C05"):
+def skeleton_translation(res, tier, seed, workdir, stats, pid="C05", must=()):
     """tie of the CONTROL SKELETON that C05's buffering theorem is about: `skelgen` translates `append` (data of symbolic
     length: the buffer test, the chunk loop as `absorb`, fill / set_to / inner as their Pkt models, `update(data_to_lanes(..))`
     as the abstract `upd`) and the prologue of finalize64/128/256 (remainder test, round count) of all five back ends from the
@@ -1168,7 +1168,10 @@ def skeleton_translation(res, tier, seed, workdir, stats, pid="C05"):
         info["theorems_checked"] = len(good)
         recheck_generated(info, tier, "HH.Generated.Skeleton")
         info["status"] = f"{len(translated)}/{len(st)} functions translated from the working tree; {len(good)}/{len(thms)} theorems (translated skeleton = appendG / finalizeCommon of the model, all states and byte strings) checked by the kernel"
-        if len(good) == len(thms):
+        missing = [m for m in must if st.get(m) != "translated"]
+        if missing:
+            info["status"] += " | outside the modelled shape: " + "; ".join(f"{m}: {st.get(m, 'absent')}" for m in missing)
+        if len(good) == len(thms) and not missing:
             return
     errs = [l for l in blog.split("\n") if "error" in l][:6]
     info["status"] = (info.get("status", "") + " | generated theorems do not all check: " + " ".join(errs))[:900]
@@ -1259,6 +1262,15 @@ def special_c11(res, tier, seed, workdir, stats):
     _c11_cross(res, tier, seed, workdir, stats)
 
 
+_c12_cross = mk_cross("C12", gen_cross_c12)
+
+
+def special_c12(res, tier, seed, workdir, stats):
+    # the std adapters of src/macros.rs must be the four one-line forwards the machine models (no overridden provided method)
+    skeleton_translation(res, tier, seed, workdir, stats, pid="C12", must=("impl_write!", "impl_hasher!"))
+    _c12_cross(res, tier, seed, workdir, stats)
+
+
 _c14_cross = mk_cross("C14", gen_cross_c14)
 
 
@@ -1269,6 +1281,6 @@ def special_c14(res, tier, seed, workdir, stats):
 
 
 T.SPECIAL.update({"C02": simd_translation, "C01": special_c01, "C05": special_c05, "C06": mk_cross("C06", gen_cross_c06),
-                  "C07": special_c07, "C12": mk_cross("C12", gen_cross_c12),
+                  "C07": special_c07, "C12": special_c12,
                   "C11": special_c11, "C13": mk_cross("C13", gen_cross_c13), "C14": special_c14})
 T.SPECIAL.update({"C10": ladder_translation, "C15": special_c15, "C09": special_c09, "C03": special_c03, "C04": special_c04, "C08": special_c08, "C16": special_c16, "C17": special_c17, "C18": special_c18})
